@@ -202,6 +202,10 @@ def run_c02(ck, fb, fbd):
     km = c.km
     ck.rule("L.def", "every grow/erase/clear of a definition array (vertex: the counter) is matched, under identical mode conditions and at the same position, on the deleted-flag array of the same kind - and vice versa")
     lockstep(c, "L.def", ("grow", "erase", "clear"), {"flag"})
+    # fast deletion swaps the victim with the last entity first: flags and caches have to travel with the definition,
+    # or the closure of a later deletion is gathered from stale incidences
+    ck.rule("L.swap", "each swap_K_indices swaps the deleted flag and the cache of K (under its guard) together with the definition")
+    lockstep(c, "L.swap", ("swap",), {"flag", "cache"}, skip_fns=("collapse_edge",))
     # deferred pair
     ck.rule("L.deferred", "in every delete_K_core the deferred path sets K_deleted_[h]=true exactly where it increments n_deleted_K_, under deferred_deletion_enabled(); the immediate erases happen only under its negation")
     for kind in KINDS:
@@ -456,6 +460,7 @@ def run_c03(ck, fb, fbd):
     ck.rule("L.swap", "each swap_K_indices swaps the property elements of K and of both half-kinds side by side together with the definition, under identical conditions")
     lockstep(c, "L.swap", ("swap",), {"props"}, skip_fns=("collapse_edge",))
     bool_storage_swap_rule(ck, fb)
+    collapse_rule(ck, fb)
     rm_rules(ck, fb)
 
 
@@ -527,12 +532,12 @@ def rm_rules(ck, fb):
     for f in fb.fns.values():
         if f.has_cfg and f.cls and f.cls.startswith("OpenVolumeMesh::PropertyStorageT<") and f.name in ("resize", "push_back") and "/src/OpenVolumeMesh/" in f.file:
             uses_def = any(n.get("f") == "def_" for b, i, n in f.nodes(("mem",)))
-            call = [n for b, i, n in f.nodes(("call",)) if n.get("pn", "").split("::")[-1] in ("resize", "push_back") and n.get("cc", "").startswith("std::vector")]
-            argdef = False
+            # EVERY call that can grow data_ has to pass def_ (a fast path that appends T() instead is a violation)
+            call = [n for b, i, n in f.nodes(("call",)) if n.get("pn", "").split("::")[-1] in ("resize", "push_back", "emplace_back", "insert", "emplace", "assign") and n.get("cc", "").startswith("std::vector") and b in f.reach()]
+            argdef = bool(call)
             for n in call:
-                for a in n.get("a", []):
-                    if any(x.get("f") == "def_" for x in walk(f.resolve(a)) if x.get("k") == "mem"):
-                        argdef = True
+                if not any(x.get("f") == "def_" for a in n.get("a", []) for x in walk(f.resolve(a)) if x.get("k") == "mem"):
+                    argdef = False
             nd += 1
             (ck.ok if (uses_def and argdef) else lambda r, w, t: ck.violate(r, w, t, "C03.rm:default:%s:%s" % (f.cls, f.name)))("C03.rm", f.where, "%s::%s passes def_ as the fill value" % (f.cls.replace("OpenVolumeMesh::", ""), f.name))
     ck.floor("storage_fill_sites", nd, 8)
@@ -575,6 +580,14 @@ def run_c01(ck, fb, fbd):
     compute_rule(c)
     value_rules(c, cores)
     value_rules_rebuild(c)
+    # the renumbering of the caches after an erase belongs to their maintenance (shared with C02/C12)
+    corrections(c, cores)
+    # reorder_incident_halffaces rewrites a cache list in place: it may only replace it by a complete permutation (shared with C09)
+    from .c04_c09 import walk_rules
+    ro = [f for f in c.fns if f.name == "reorder_incident_halffaces"]
+    if not ro:
+        raise AnalysisBroken("anchor vanished: TopologyKernel::reorder_incident_halffaces")
+    walk_rules(ck, fb, ro[0])
     # set_edge / set_face / set_cell
     ck.rule("C01.set", "set_edge/set_face/set_cell unlink the old definition from the cache and link the new one under the cache's guard, and write the definition afterwards on every path")
     for name, cache in (("set_edge", km_cache(c, "Vertex")), ("set_face", km_cache(c, "Edge")), ("set_cell", km_cache(c, "Face"))):
@@ -689,6 +702,28 @@ def elem_effects(c):
             if tgt:
                 out[f.id].append(dict(cache=tgt[0], index=tgt[1], what=what, pos=pos, node=n, atoms=atoms_at(f, pos[0])))
     return out
+
+
+def collapse_rule(ck, fb):
+    """TetrahedralMeshTopologyKernel::collapse_edge re-creates the cells around the removed vertex: the property values of
+    every re-created halfedge, halfface and cell have to move to the new entity"""
+    from .canon import Canon
+    ck.rule("C03.collapse", "collapse_edge moves the property values of the entities it re-creates: swap_property_elements(old, new) is called for the halfedges (new = result of add_halfedge), the halffaces (new = result of add_halfface) and the cells (new = result of add_cell) of every rebuilt cell")
+    fs = [f for f in fb.by_cls.get("OpenVolumeMesh::TetrahedralMeshTopologyKernel", []) if f.name == "collapse_edge" and f.has_cfg]
+    if len(fs) != 1:
+        raise AnalysisBroken("anchor vanished: TetrahedralMeshTopologyKernel::collapse_edge (%d)" % len(fs))
+    f = fs[0]
+    cn = Canon(f)
+    seen = {}
+    for b, i, x in f.nodes(("call",)):
+        if not x.get("pn", "").endswith("swap_property_elements") or b not in f.reach() or len(x.get("a", [])) != 2:
+            continue
+        a = f.resolve(x["a"])
+        t = (unwrap(a[1]).get("t") or unwrap(a[1]).get("rt") or "").replace("const ", "").split("::")[-1]
+        seen.setdefault(t, []).append(cn.s(x["a"][1]))
+    for kind, creator in (("HEH", "add_halfedge("), ("HFH", "add_halfface("), ("CH", "add_cell(")):
+        ok = any(v.startswith(creator) or creator in v for v in seen.get(kind, []))
+        (ck.ok if ok else lambda r, w, t: ck.violate(r, w, t, "C03.collapse:%s" % kind))("C03.collapse", f.where, "collapse_edge: swap_property_elements(old, %s...)) carries the %s properties over (found %s)" % (creator, kind, [v[:40] for v in seen.get(kind, [])] or "no such call"))
 
 
 def bool_storage_swap_rule(ck, fb):
